@@ -89,6 +89,10 @@ class Gen(object):
     def attr_for(self, value):
         rng = self.rng
         own = [n for n in dir(value) if not n.startswith("_") and n not in self.reserved]
+        # names with ONE leading underscore are forwarded like any other (namedtuple's API, "private" attributes)
+        under = [n for n in dir(value) if n.startswith("_") and not n.startswith("__") and n not in self.reserved]
+        if under and rng.random() < 0.35:
+            return ["lit", rng.choice(under)]
         if own and rng.random() < 0.6:
             return ["lit", rng.choice(own)]
         return rng.choice(P.ATTR_IDX)
